@@ -65,11 +65,11 @@ Proof. induction tr1; simpl; intros; auto. destruct (step st a); auto. Qed.
 Lemma run_snoc : forall tr e st st', run st tr = Some st' -> run st (tr ++ [e]) = step st' e.
 Proof. intros. rewrite run_app, H. simpl. destruct (step st' e); auto. Qed.
 
-Lemma reachable_init : forall tz cap, reachable (init tz cap).
-Proof. intros. exists tz, cap, []. reflexivity. Qed.
+Lemma reachable_init : forall tz cap b, reachable (init tz cap b).
+Proof. intros. exists tz, cap, b, []. reflexivity. Qed.
 
 Lemma reachable_step : forall st e st', reachable st -> step st e = Some st' -> reachable st'.
-Proof. intros st e st' (tz & cap & tr & H) Hs. exists tz, cap, (tr ++ [e]). rewrite (run_snoc _ _ _ _ H). exact Hs. Qed.
+Proof. intros st e st' (tz & cap & b & tr & H) Hs. exists tz, cap, b, (tr ++ [e]). rewrite (run_snoc _ _ _ _ H). exact Hs. Qed.
 
 Lemma reachable_run : forall tr st st', reachable st -> run st tr = Some st' -> reachable st'.
 Proof.
@@ -79,13 +79,13 @@ Qed.
 
 (** an invariant of [step] that holds initially holds in every reachable state *)
 Lemma reachable_ind : forall (P : state -> Prop),
-  (forall tz cap, P (init tz cap)) -> (forall st e st', P st -> step st e = Some st' -> P st') ->
+  (forall tz cap b, P (init tz cap b)) -> (forall st e st', P st -> step st e = Some st' -> P st') ->
   forall st, reachable st -> P st.
 Proof.
-  intros P H0 Hs st (tz & cap & tr & H). revert st H.
+  intros P H0 Hs st (tz & cap & b & tr & H). revert st H.
   induction tr using rev_ind; intros.
   - simpl in H. inversion H; subst. apply H0.
-  - rewrite run_app in H. destruct (run (init tz cap) tr) eqn:E; try discriminate.
+  - rewrite run_app in H. destruct (run (init tz cap b) tr) eqn:E; try discriminate.
     simpl in H. destruct (step s x) eqn:E2; try discriminate. inversion H; subst.
     apply (Hs s x st); [apply IHtr; reflexivity | exact E2].
 Qed.
@@ -138,7 +138,7 @@ Proof. unfold clients_ok, put. simpl. intros. apply Forall_upd_nth; auto. Qed.
 
 Ltac unf :=
   unfold clients_ok, with_log, send, with_queue, put, with_clients, depart, with_leak, with_exit in *;
-  cbn [admin_only total tmr exit_q wedged exited queue clients tzero qcap leaked zero_sends log mid_sigint] in *.
+  cbn [admin_only total tmr exit_q wedged exited queue clients tzero qcap leaked zero_sends log mid_sigint blk] in *.
 
 Ltac upd_ok Hok Hc := unf; apply Forall_upd_nth; [exact Hok |]; revert Hc; match goal with |- context [admin_only ?s] => generalize (admin_only s) end; intros ao Hc.
 
@@ -201,7 +201,7 @@ Proof.
     destruct ((total st + z =? 0) && admin_only st); [destruct (exit_q st) |]; fin Hs; exact Hok.
   - destruct (tmr st); try discriminate. destruct (exit_q st); fin Hs; exact Hok.
   - destruct (negb (main_ok st)); try discriminate. destruct (exit_q st); try discriminate. fin Hs. exact Hok.
-  - destruct (negb (mid_sigint st) || wedged st); try discriminate. destruct (qcap st <=? length (queue st))%nat; fin Hs; exact Hok.
+  - destruct (negb (mid_sigint st) || wedged st); try discriminate. destruct (qcap st <=? length (queue st))%nat; [destruct (blk st) |]; fin Hs; exact Hok.
   - (* Enter *)
     destruct (nth_error (clients st) c) eqn:En; try discriminate.
     pose proof (Forall_nth_error _ _ _ _ _ Hok En) as Hc.
@@ -268,7 +268,7 @@ Proof.
       unfold counter_ok; simpl; split; lia.
   - destruct (tmr st); try discriminate. destruct (exit_q st); fin Hs; split; auto.
   - destruct (negb (main_ok st)); try discriminate. destruct (exit_q st); try discriminate. fin Hs. split; auto.
-  - destruct (negb (mid_sigint st) || wedged st); try discriminate. destruct (qcap st <=? length (queue st))%nat; fin Hs; unfold counter_ok; simpl; rewrite ?qsum_app; simpl; split; lia.
+  - destruct (negb (mid_sigint st) || wedged st); try discriminate. destruct (qcap st <=? length (queue st))%nat; [destruct (blk st) |]; fin Hs; unfold counter_ok; simpl; rewrite ?qsum_app; simpl; split; lia.
   - destruct (nth_error (clients st) c) eqn:En; try discriminate.
     pose proof (Forall_nth_error _ _ _ _ _ Hok En) as Hcl.
     destruct (cphase c0) eqn:Ep; try discriminate.
@@ -302,7 +302,7 @@ Definition is_client_event (e : event) : bool :=
   | _ => false
   end.
 
-Definition ctl (st : state) := (admin_only st, total st, tmr st, exit_q st, wedged st, exited st, tzero st, zero_sends st, mid_sigint st).
+Definition ctl (st : state) := (admin_only st, total st, tmr st, exit_q st, wedged st, exited st, tzero st, zero_sends st, mid_sigint st, blk st).
 
 Lemma client_event_ctl : forall st e st', is_client_event e = true -> step st e = Some st' ->
   ctl st' = ctl st /\ (queue st' = queue st \/ exists m, queue st' = queue st ++ [m]).
@@ -329,7 +329,7 @@ Proof.
     destruct (ckind c0); fin Hs; unfold ctl; simpl; rewrite ?Ex; split; auto; right; eexists; reflexivity.
 Qed.
 
-Ltac cfields := cbn [admin_only total tmr exit_q wedged exited queue clients tzero qcap leaked zero_sends log mid_sigint] in *.
+Ltac cfields := cbn [admin_only total tmr exit_q wedged exited queue clients tzero qcap leaked zero_sends log mid_sigint blk] in *.
 
 Ltac fin_ctl :=
   repeat split; intros; subst; try discriminate; try congruence; try tauto; try lia;
@@ -412,7 +412,7 @@ Qed.
 
 Definition Inv (st : state) : Prop := clients_ok st /\ counter_ok st /\ ctl_ok st.
 
-Lemma Inv_init : forall tz cap, Inv (init tz cap).
+Lemma Inv_init : forall tz cap b, Inv (init tz cap b).
 Proof.
   intros. unfold Inv, clients_ok, counter_ok, ctl_ok, init. simpl.
   split; [constructor |]. split; [lia |].
@@ -489,7 +489,7 @@ Proof.
   - destruct (tmr st); try discriminate. destruct (exit_q st); fin Hs; eauto using same_but_pend_refl.
   - destruct (negb (main_ok st)); try discriminate. destruct (exit_q st); try discriminate. fin Hs.
     eauto using same_but_pend_refl.
-  - destruct (negb (mid_sigint st) || wedged st); try discriminate. destruct (qcap st <=? length (queue st))%nat; fin Hs; eauto using same_but_pend_refl.
+  - destruct (negb (mid_sigint st) || wedged st); try discriminate. destruct (qcap st <=? length (queue st))%nat; [destruct (blk st) |]; fin Hs; eauto using same_but_pend_refl.
   - assert (c0 <> i) by congruence.
     destruct (nth_error (clients st) c0); try discriminate. destruct (cphase c1); try discriminate.
     destruct (ckind c1); fin Hs; unf; apply nth_error_upd_frame; auto.
@@ -528,7 +528,7 @@ Proof.
   - destruct (tmr st); try discriminate. destruct (exit_q st); fin Hs; auto.
   - destruct (negb (main_ok st)); try discriminate. destruct (exit_q st); try discriminate. fin Hs.
     right. eexists. split; reflexivity.
-  - destruct (negb (mid_sigint st) || wedged st); try discriminate. destruct (qcap st <=? length (queue st))%nat; fin Hs; auto.
+  - destruct (negb (mid_sigint st) || wedged st); try discriminate. destruct (qcap st <=? length (queue st))%nat; [destruct (blk st) |]; fin Hs; auto.
   - destruct (nth_error (clients st) c); try discriminate. destruct (cphase c0); try discriminate.
     destruct (ckind c0); fin Hs; unf; auto.
 Qed.
@@ -712,7 +712,7 @@ Proof.
       exfalso; eapply Hne; eauto.
   - destruct (tmr st); try discriminate. destruct (exit_q st); fin Hs; cbn [log] in Hl; exfalso; eapply Hne; eauto.
   - destruct (negb (main_ok st)); try discriminate. destruct (exit_q st); try discriminate. fin Hs. unf. inversion Hl.
-  - destruct (negb (mid_sigint st) || wedged st); try discriminate. destruct (qcap st <=? length (queue st))%nat; fin Hs; cbn [log] in Hl; exfalso; eapply Hne; eauto.
+  - destruct (negb (mid_sigint st) || wedged st); try discriminate. destruct (qcap st <=? length (queue st))%nat; [destruct (blk st) |]; fin Hs; cbn [log] in Hl; exfalso; eapply Hne; eauto.
   - destruct (nth_error (clients st) c); try discriminate. destruct (cphase c0); try discriminate.
     destruct (ckind c0); fin Hs; unf; exfalso; eapply Hne; eauto.
 Qed.
@@ -785,7 +785,7 @@ Proof.
   - destruct (tmr st); try discriminate. destruct (exit_q st); fin Hs; cbn [exited] in Hx; congruence.
   - destruct (negb (main_ok st)); try discriminate. destruct (exit_q st) eqn:Eq; try discriminate. fin Hs.
     unf. inversion Hx. auto.
-  - destruct (negb (mid_sigint st) || wedged st); try discriminate. destruct (qcap st <=? length (queue st))%nat; fin Hs; cbn [exited] in Hx; congruence.
+  - destruct (negb (mid_sigint st) || wedged st); try discriminate. destruct (qcap st <=? length (queue st))%nat; [destruct (blk st) |]; fin Hs; cbn [exited] in Hx; congruence.
 Qed.
 
 Lemma exitq_step : forall st e st' x, step st e = Some st' -> exit_q st = None -> exit_q st' = Some x ->
@@ -806,7 +806,7 @@ Proof.
     left. cbn. auto.
   - destruct (tmr st) eqn:Et; try discriminate. rewrite H0 in Hs. fin Hs. cbn [exit_q] in Hx. inversion Hx. auto.
   - destruct (negb (main_ok st)); try discriminate. rewrite H0 in Hs. discriminate.
-  - destruct (negb (mid_sigint st) || wedged st); try discriminate. destruct (qcap st <=? length (queue st))%nat; fin Hs; cbn [exit_q] in Hx; congruence.
+  - destruct (negb (mid_sigint st) || wedged st); try discriminate. destruct (qcap st <=? length (queue st))%nat; [destruct (blk st) |]; fin Hs; cbn [exit_q] in Hx; congruence.
 Qed.
 
 Lemma exitq_mono : forall st e st' x, step st e = Some st' -> exit_q st = Some x -> exit_q st' = Some x.
@@ -823,7 +823,7 @@ Proof.
     destruct ((total st + z =? 0) && admin_only st); [rewrite H0 in Hs |]; fin Hs; auto.
   - destruct (tmr st); try discriminate. rewrite H0 in Hs. fin Hs. auto.
   - destruct (negb (main_ok st)); try discriminate. rewrite H0 in Hs. fin Hs. auto.
-  - destruct (negb (mid_sigint st) || wedged st); try discriminate. destruct (qcap st <=? length (queue st))%nat; fin Hs; auto.
+  - destruct (negb (mid_sigint st) || wedged st); try discriminate. destruct (qcap st <=? length (queue st))%nat; [destruct (blk st) |]; fin Hs; auto.
 Qed.
 
 Lemma admin_only_step : forall st e st', step st e = Some st' -> admin_only st' = true ->
@@ -840,63 +840,63 @@ Proof.
     destruct ((total st + z =? 0) && admin_only st); [destruct (exit_q st) |]; fin Hs; auto.
   - destruct (tmr st); try discriminate. destruct (exit_q st); fin Hs; auto.
   - destruct (negb (main_ok st)); try discriminate. destruct (exit_q st); try discriminate. fin Hs. auto.
-  - destruct (negb (mid_sigint st) || wedged st); try discriminate. destruct (qcap st <=? length (queue st))%nat; fin Hs; auto.
+  - destruct (negb (mid_sigint st) || wedged st); try discriminate. destruct (qcap st <=? length (queue st))%nat; [destruct (blk st) |]; fin Hs; auto.
 Qed.
 
-Lemma admin_only_needs_sigint : forall tz cap tr st, run (init tz cap) tr = Some st -> admin_only st = true -> In Sigint tr.
+Lemma admin_only_needs_sigint : forall tz cap b tr st, run (init tz cap b) tr = Some st -> admin_only st = true -> In Sigint tr.
 Proof.
-  intros tz cap tr. induction tr using rev_ind; intros st Hr Ha.
+  intros tz cap b tr. induction tr using rev_ind; intros st Hr Ha.
   - simpl in Hr. fin Hr. discriminate.
-  - rewrite run_app in Hr. destruct (run (init tz cap) tr) eqn:E; try discriminate. simpl in Hr.
+  - rewrite run_app in Hr. destruct (run (init tz cap b) tr) eqn:E; try discriminate. simpl in Hr.
     destruct (step s x) eqn:Es; try discriminate. fin Hr. apply in_or_app.
     destruct (admin_only_step _ _ _ Es Ha) as [H | H]; [left; eauto | right; subst; simpl; auto].
 Qed.
 
 (** where the message in the exit channel came from *)
-Definition exitq_origin (tz : bool) (cap : nat) (tr : list event) (x : cause) : Prop :=
+Definition exitq_origin (tz : bool) (cap : nat) (b : bool) (tr : list event) (x : cause) : Prop :=
   match x with
   | ByTerm => False
-  | ByZero => exists tr1 tr2 s1, tr = tr1 ++ DrainDeliver :: tr2 /\ run (init tz cap) (tr1 ++ [DrainDeliver]) = Some s1 /\
+  | ByZero => exists tr1 tr2 s1, tr = tr1 ++ DrainDeliver :: tr2 /\ run (init tz cap b) (tr1 ++ [DrainDeliver]) = Some s1 /\
                                  admin_only s1 = true /\ total s1 = 0
   | ByTimer => exists tr1 tr2, tr = tr1 ++ TimerFire :: tr2 /\ In Sigint tr1
   end.
 
-Lemma exitq_origin_snoc : forall tz cap tr x e, exitq_origin tz cap tr x -> exitq_origin tz cap (tr ++ [e]) x.
+Lemma exitq_origin_snoc : forall tz cap b tr x e, exitq_origin tz cap b tr x -> exitq_origin tz cap b (tr ++ [e]) x.
 Proof.
-  intros tz cap tr x e H. destruct x; simpl in *; auto.
+  intros tz cap b tr x e H. destruct x; simpl in *; auto.
   - destruct H as (tr1 & tr2 & s1 & -> & H). exists tr1, (tr2 ++ [e]), s1. rewrite <- app_assoc. auto.
   - destruct H as (tr1 & tr2 & -> & H). exists tr1, (tr2 ++ [e]). rewrite <- app_assoc. auto.
 Qed.
 
-Lemma exitq_has_origin : forall tz cap tr st x, run (init tz cap) tr = Some st -> exit_q st = Some x -> exitq_origin tz cap tr x.
+Lemma exitq_has_origin : forall tz cap b tr st x, run (init tz cap b) tr = Some st -> exit_q st = Some x -> exitq_origin tz cap b tr x.
 Proof.
-  intros tz cap tr. induction tr using rev_ind; intros st y Hr Hq.
+  intros tz cap b tr. induction tr using rev_ind; intros st y Hr Hq.
   - simpl in Hr. fin Hr. discriminate.
-  - rewrite run_app in Hr. destruct (run (init tz cap) tr) eqn:E; try discriminate. simpl in Hr.
+  - rewrite run_app in Hr. destruct (run (init tz cap b) tr) eqn:E; try discriminate. simpl in Hr.
     destruct (step s x) eqn:Es; try discriminate. fin Hr.
     destruct (exit_q s) eqn:Eq.
     + rewrite (exitq_mono _ _ _ _ Es Eq) in Hq. fin Hq. apply exitq_origin_snoc. eauto.
     + destruct (exitq_step _ _ _ _ Es Eq Hq) as [(-> & -> & Ha & Ht) | (-> & -> & Ht)].
       * simpl. exists tr, [], st. repeat split; auto. rewrite run_app, E. simpl. rewrite Es. reflexivity.
       * simpl. exists tr, []. split; auto. eapply admin_only_needs_sigint; eauto.
-        destruct (reachable_Inv s) as (_ & _ & (A & _)). { exists tz, cap, tr; auto. } apply A. congruence.
+        destruct (reachable_Inv s) as (_ & _ & (A & _)). { exists tz, cap, b, tr; auto. } apply A. congruence.
 Qed.
 
-Definition exit_origin (tz : bool) (cap : nat) (tr : list event) (x : cause) : Prop :=
+Definition exit_origin (tz : bool) (cap : nat) (b : bool) (tr : list event) (x : cause) : Prop :=
   match x with
   | ByTerm => In Sigterm tr
-  | _ => In ExitDeliver tr /\ exitq_origin tz cap tr x
+  | _ => In ExitDeliver tr /\ exitq_origin tz cap b tr x
   end.
 
-Lemma exit_has_origin : forall tz cap tr st x, run (init tz cap) tr = Some st -> exited st = Some x -> exit_origin tz cap tr x.
+Lemma exit_has_origin : forall tz cap b tr st x, run (init tz cap b) tr = Some st -> exited st = Some x -> exit_origin tz cap b tr x.
 Proof.
-  intros tz cap tr. induction tr using rev_ind; intros st y Hr Hx.
+  intros tz cap b tr. induction tr using rev_ind; intros st y Hr Hx.
   - simpl in Hr. fin Hr. discriminate.
-  - rewrite run_app in Hr. destruct (run (init tz cap) tr) eqn:E; try discriminate. simpl in Hr.
+  - rewrite run_app in Hr. destruct (run (init tz cap b) tr) eqn:E; try discriminate. simpl in Hr.
     destruct (step s x) eqn:Es; try discriminate. fin Hr.
     destruct (exit_step _ _ _ _ Es Hx) as [(-> & ->) | (-> & Hq)].
     + simpl. apply in_or_app. right. simpl. auto.
-    + assert (Ho : exitq_origin tz cap tr y) by (eapply exitq_has_origin; eauto).
+    + assert (Ho : exitq_origin tz cap b tr y) by (eapply exitq_has_origin; eauto).
       destruct y; simpl in *; try contradiction; (split; [apply in_or_app; right; simpl; auto |]).
       * destruct Ho as (tr1 & tr2 & s1 & -> & H). exists tr1, (tr2 ++ [ExitDeliver]), s1. rewrite <- app_assoc. auto.
       * destruct Ho as (tr1 & tr2 & -> & H). exists tr1, (tr2 ++ [ExitDeliver]). rewrite <- app_assoc. auto.
@@ -947,7 +947,7 @@ Proof.
       exists [ExitDeliver], st'. auto.
     + exists [TimerFire; ExitDeliver].
       set (s1 := mkS (admin_only st) (total st) TSent (Some ByTimer) (wedged st) (exited st) (queue st)
-                     (clients st) (tzero st) (qcap st) (leaked st) (zero_sends st) (log st) (mid_sigint st)).
+                     (clients st) (tzero st) (qcap st) (leaked st) (zero_sends st) (log st) (mid_sigint st) (blk st)).
       assert (Hs : step st TimerFire = Some s1).
       { unfold step. rewrite Et, Eq. rewrite Hx at 1. reflexivity. }
       destruct (Hex s1 ByTimer) as (st' & Hr & Hy); auto; try discriminate.
@@ -1089,7 +1089,7 @@ Proof.
     destruct ((total st + z =? 0) && admin_only st); [destruct (exit_q st) |]; fin Hs; cbn; auto.
   - destruct (tmr st); try discriminate. destruct (exit_q st); fin Hs; auto.
   - destruct (negb (main_ok st)); try discriminate. destruct (exit_q st); try discriminate. fin Hs. auto.
-  - destruct (negb (mid_sigint st) || wedged st); try discriminate. destruct (qcap st <=? length (queue st))%nat; fin Hs; auto.
+  - destruct (negb (mid_sigint st) || wedged st); try discriminate. destruct (qcap st <=? length (queue st))%nat; [destruct (blk st) |]; fin Hs; auto.
     cbn. rewrite no_pos_app, Hnp. auto.
   - discriminate He.
 Qed.
@@ -1106,7 +1106,7 @@ Proof.
   - destruct (negb (main_ok st)); try discriminate. fin Hs. auto.
   - destruct (tmr st); try discriminate. destruct (exit_q st); fin Hs; auto.
   - destruct (negb (main_ok st)); try discriminate. destruct (exit_q st); try discriminate. fin Hs. auto.
-  - destruct (negb (mid_sigint st) || wedged st); try discriminate. destruct (qcap st <=? length (queue st))%nat; fin Hs; auto.
+  - destruct (negb (mid_sigint st) || wedged st); try discriminate. destruct (qcap st <=? length (queue st))%nat; [destruct (blk st) |]; fin Hs; auto.
 Qed.
 
 (** after a counted client died in a panic — and once every +1 has been delivered — the main loop
@@ -1184,15 +1184,15 @@ Lemma session_held_not_kicked : forall st i c, nth_error (clients st) i = Some c
   cphase c = SessionHeld -> step st (Poll i) = None.
 Proof. intros. eapply txn_not_polled; eauto. right; auto. Qed.
 
-Lemma exit_condition : forall tz cap tr st x, run (init tz cap) tr = Some st -> exited st = Some x ->
+Lemma exit_condition : forall tz cap b tr st x, run (init tz cap b) tr = Some st -> exited st = Some x ->
   match x with
   | ByTerm => In Sigterm tr
   | ByZero => In ExitDeliver tr /\
-              exists tr1 tr2 s1, tr = tr1 ++ DrainDeliver :: tr2 /\ run (init tz cap) (tr1 ++ [DrainDeliver]) = Some s1 /\
+              exists tr1 tr2 s1, tr = tr1 ++ DrainDeliver :: tr2 /\ run (init tz cap b) (tr1 ++ [DrainDeliver]) = Some s1 /\
                                  admin_only s1 = true /\ total s1 = 0
   | ByTimer => In ExitDeliver tr /\ exists tr1 tr2, tr = tr1 ++ TimerFire :: tr2 /\ In Sigint tr1
   end.
-Proof. intros tz cap tr st x Hr Hx. pose proof (exit_has_origin _ _ _ _ _ Hr Hx) as H. destruct x; exact H. Qed.
+Proof. intros tz cap b tr st x Hr Hx. pose proof (exit_has_origin _ _ _ _ _ _ Hr Hx) as H. destruct x; exact H. Qed.
 
 Lemma r_all_left_exits : forall st, reachable st -> exited st = None -> main_ok st = true ->
   admin_only st = true -> ncounted (clients st) = 0 -> leaked st = 0 ->
@@ -1251,9 +1251,9 @@ Qed.
 
 (** the guard under which the liveness theorems speak: the trace does not wedge *)
 Definition known_wedge (tz : bool) (cap : nat) (tr : list event) : bool :=
-  match run (init tz cap) tr with Some st => wedged st | None => false end.
+  match run (init tz cap b) tr with Some st => wedged st | None => false end.
 
-Lemma exit_liveness_guarded : forall tz cap tr st, run (init tz cap) tr = Some st -> known_wedge tz cap tr = false ->
+Lemma exit_liveness_guarded : forall tz cap tr st, run (init tz cap b) tr = Some st -> known_wedge tz cap tr = false ->
   mid_sigint st = false -> exited st = None -> admin_only st = true -> tzero st = false ->
   exists tr' st', run st tr' = Some st' /\ exists x, exited st' = Some x /\ x <> ByTerm.
 Proof.
@@ -1347,4 +1347,19 @@ Proof.
   intros tr' st' H. split.
   - destruct (wedge_forever _ _ _ Hw Hx H). auto.
   - eapply wedged_no_timer; eauto.
+Qed.
+
+(** E1: a client has its ReadyForQuery (it has been TOLD it is connected, and may already have sent
+    BEGIN) but its task has not sent the +1 yet when SIGINT is handled: the 0 finds the count at zero and
+    the process exits under it — at once, not at shutdown_timeout.  Reproduced on the real binary
+    (connect, then SIGINT immediately: about 1 run in 20). *)
+Definition exit_under_admitted : list event :=
+  [Accept Normal TxnMode; AuthDone 0 true; Sigint; SigintQ; DrainDeliver; ExitDeliver].
+
+Lemma exit_before_counted_refuted : exists tr st c, run (init false 2048) tr = Some st /\
+  exited st = Some ByZero /\ In (OAdmitted 0) (log st) /\ ~ In (OKicked 0) (log st) /\
+  nth_error (clients st) 0 = Some c /\ cphase c = Authed /\ ckind c = Normal /\ gate c = false /\ tmr st = TArmed.
+Proof.
+  exists exit_under_admitted. eexists. eexists. split; [vm_compute; reflexivity |].
+  vm_compute. repeat split; auto. intros [H | H]; [discriminate | destruct H as [H | H]; [discriminate | exact H]].
 Qed.
